@@ -49,5 +49,22 @@ Example C07_requests_example :
   c_reqs c = [] /\ c_reqs (astep 10%Z (fun _ _ => TVOk) c (EL GErr)) = [(7, 72)] /\ hc c = 7.
 Proof. vm_compute. repeat split. Qed.
 
+From GH Require Import Oracle.C07.
+
+(** ** SyncWait inside a sync (second follow-up; tied by the extra driver [wait]):
+    SyncWait blocks only while the recorded sync target is above the height the store
+    reports and the store does not serve the target — i.e. only while a sync is in progress *)
+Theorem C07_sync_wait_blocks_only_during_sync : forall c : cfg,
+  sync_wait_returns c = false ->
+  state_height c < ss_to (c_state c) /\ rs_has (ss_to (c_state c)) (rs_log (c_store c)) = false.
+Proof. exact sync_wait_blocks_only_during_sync. Qed.
+
+(** a SyncWait call that returned at once has returned at the end of every run *)
+Theorem C07_sync_wait_stays_returned : forall c final : cfg,
+  fst (wait_model c final) = true -> snd (wait_model c final) = true.
+Proof. exact wait_model_mono. Qed.
+
 Print Assumptions C07_requests_resume_from_store_head.
 Print Assumptions C07_only_the_request_step_asks.
+Print Assumptions C07_sync_wait_blocks_only_during_sync.
+Print Assumptions C07_sync_wait_stays_returned.
